@@ -123,14 +123,15 @@ def _canon(root, p):
 def _prod(root, p):
     if p is None:
         return None
-    return [os.path.basename(p.stackRoot()), p.version, p.flavor, _canon(root, p.dir), _canon(root, p.tablefile),
-            sorted(str(t) for t in p.tags)]
+    return [os.path.basename(p.stackRoot()), p.name, p.version, p.flavor, _canon(root, p.dir),
+            _canon(root, p.tablefile), sorted(str(t) for t in p.tags)]
 
 
 def ask_everything(x, root, flavors):
     """every query of the property, through the cache and from the files"""
     e = c06._eups()
     ans = {"decl": [], "tag": [], "pdecl": [], "ptag": [], "list": []}
+    flavors = list(dict.fromkeys(flavors))
     for mode, nc in (("cache", False), ("files", True)):
         for n in NAMES:
             for fl in flavors:
@@ -138,10 +139,10 @@ def ask_everything(x, root, flavors):
                     for s in STACKS:
                         p = x.findProduct(n, v, eupsPathDirs=os.path.join(root, s), flavor=fl, noCache=nc)
                         if p is not None:
-                            ans["decl"].append([mode, s, n, v, fl] + _prod(root, p)[3:])
+                            ans["decl"].append([mode, s, n, v, fl] + _prod(root, p)[4:])
                     p = x.findProduct(n, v, flavor=fl, noCache=nc)
                     if p is not None:
-                        ans["pdecl"].append([mode, n, v, fl] + _prod(root, p)[:1] + _prod(root, p)[3:])
+                        ans["pdecl"].append([mode, n, v, fl] + _prod(root, p)[:1] + _prod(root, p)[4:])
                 for t in TAGS:
                     for s in STACKS:
                         p = x.findTaggedProduct(n, t, eupsPathDirs=os.path.join(root, s), flavor=fl, noCache=nc)
@@ -157,7 +158,7 @@ def ask_everything(x, root, flavors):
             for p in x.findProducts(n, eupsPathDirs=[os.path.join(root, s)]):
                 ans["list"].append(["cache"] + _prod(root, p))
             db = e.db.Database(ups_db(root, s))
-            for p in db.findProducts(n, flavors=list(dict.fromkeys(flavors))):
+            for p in db.findProducts(n, flavors=flavors):
                 p.db = ups_db(root, s)
                 ans["list"].append(["files"] + _prod(root, p))
     for k in ans:
@@ -344,6 +345,9 @@ def gen_case(rng, max_procs=16, flavors=None):
             procs.append({"del": [rng.choice(users + ["db"]), rng.choice(STACKS), rng.choice(flavors)]})
             continue
         f = rng.choice(flavors)
+        if procs and rng.random() < 0.06:
+            procs.append({"u": rng.choice(users), "adm": True, "f": f, "ops": [], "q": False, "crash": None})
+            continue
         p = {"u": rng.choice(users), "f": f, "ops": [], "q": rng.random() < 0.3, "crash": None}
         for _ in range(rng.choice([1, 1, 2, 2, 3, 4])):
             if rng.random() < 0.07:
@@ -365,3 +369,417 @@ def gen_case(rng, max_procs=16, flavors=None):
         if len(procs) >= 4 and rng.random() < 0.12:
             break
     return {"procs": procs[:max_procs]}
+
+
+# ------------------------------------------------------------------ model side
+
+def pop_line(o):
+    if o["k"] == "DC":
+        return ",".join(["DC", enc(o["loc"]), enc(o["s"]), enc(o["fl"])])
+    return c06.op_line(o)
+
+
+def proc_line(p):
+    if "del" in p:
+        return ";".join(["X"] + [enc(x) for x in p["del"]])
+    cr = p.get("crash")
+    crs = "~" if not cr else "%d,%d,%d" % (cr["op"], cr["g"], 1 if cr["when"] == "post" else 0)
+    loc = "db" if p.get("adm") else p["u"]
+    return ";".join(["P", enc(loc), enc(p["f"]), crs, "1" if p.get("q") else "0",
+                     "&".join(pop_line(o) for o in p["ops"])])
+
+
+def case_line(case, v_rm=False, v_init=False):
+    univ = ";".join([",".join(NAMES), ",".join(VERSIONS), ",".join(TAGS)])
+    return "\t".join(["case", "1" if v_rm else "0", "1" if v_init else "0", ",".join(STACKS), univ,
+                      "|".join(proc_line(p) for p in case["procs"])])
+
+
+def _d(x):
+    return common.dec("" if x == "%" else x)
+
+
+OUTCLASS = {"ok": "ok", "err:NotFound": "notfound", "err:Refused": "refused", "raised": "notfound",
+            "crashed": "crashed"}
+
+
+def parse_content(s):
+    out = []
+    if not s:
+        return out
+    for fam in s.split("+"):
+        n, vs, ts = fam.split("!")
+        out.append([_d(n), sorted([_d(x) for x in v.split(":")] for v in vs.split("^")) if vs else [],
+                    sorted([_d(x) for x in t.split(":")] for t in ts.split("^")) if ts else []])
+    out.sort()
+    return out
+
+
+def parse_model(line):
+    if line.startswith("DRIVER-ERROR"):
+        raise common.ModelError(line)
+    out = []
+    for seg in line.split("\t"):
+        oc, recs, pks, loaded, ans = seg.split("#")
+        st = {"out": [OUTCLASS.get(x, "other:" + x) for x in oc.split(",")] if oc else [], "rec": {}, "pk": {},
+              "loaded": {}, "ans": None}
+        for r in (recs.split(";") if recs else []):
+            s, k, n, x, t = r.split(",")
+            key = "%s/%s/%s" % (_d(s), k, _d(n)) + ("" if k == "D" else "/" + _d(x))
+            st["rec"][key] = int(t)
+        for r in (pks.split(";") if pks else []):
+            l, s, f, t, c = r.split(",")
+            st["pk"]["%s/%s/%s" % (_d(l), _d(s), _d(f))] = [int(t), parse_content(c)]
+        for r in (loaded.split(";") if loaded else []):
+            s, fl = r.split("=")
+            st["loaded"][_d(s)] = sorted(set(_d(x) for x in fl.split(",") if x))
+        if ans:
+            st["ans"] = sorted([_d(x) for x in r.split(",")] for r in ans.split(";"))
+        out.append(st)
+    return out
+
+
+def impl_rows(ans):
+    """the implementation's answers in the row format of the model driver"""
+    rows = []
+    md = {"cache": "c", "files": "f"}
+    for mode, s, n, v, fl, d, tb, tags in ans["decl"]:
+        rows.append(["E", md[mode], s, n, v, fl])
+        rows.append(["D", md[mode], s, n, v, fl, d, tb])
+        for t in tags:
+            rows.append(["H", md[mode], s, n, v, t, fl])
+    for mode, n, v, fl, s, d, tb, tags in ans["pdecl"]:
+        rows.append(["F", md[mode], n, v, fl, s, d, tb])
+    for mode, s, n, t, fl, v in ans["tag"]:
+        rows.append(["T", md[mode], s, n, t, fl, v])
+    for mode, n, t, fl, s, v in ans["ptag"]:
+        rows.append(["G", md[mode], n, t, fl, s, v])
+    rows.sort()
+    return rows
+
+
+# ------------------------------------------------------------------ running a case on the implementation
+
+def _admin_child(root, proc):
+    """an administrator's load: ProductStack.fromCache persisting into ups_db itself (what Eups does for asAdmin;
+    Eups(asAdmin=True) itself cannot be built on this tree: Tags.saveGroup raises 'Group not supported')"""
+    e = _fresh_interpreter_state()
+    c06._quiet()
+    os.environ.clear()
+    os.environ.update(proc_environ(root, proc["u"], proc["f"]))
+    from eups.stack import ProductStack
+    out = {"loaded": {}, "out": []}
+    for s in STACKS:
+        ps = ProductStack.fromCache(ups_db(root, s), [proc["f"], "generic"], persistDir=ups_db(root, s),
+                                    userTagDir=None, updateCache=True, autosave=False)
+        out["loaded"][s] = sorted(ps.getFlavors())
+    return out
+
+
+def apply_stamps(root, mst):
+    """write the model's logical stamps as modification times"""
+    recs, pks = scan_records(root), scan_pickles(root)
+    # files first, directories last: utime on a file does not touch its directory, but keep the order obvious
+    for k, p in sorted(recs.items(), key=lambda kv: kv[0].split("/")[1] == "D"):
+        if k in mst["rec"]:
+            t = BASE + mst["rec"][k]
+            os.utime(p, (t, t))
+    for k, p in pks.items():
+        if k in mst["pk"]:
+            t = BASE + mst["pk"][k][0]
+            os.utime(p, (t, t))
+
+
+def impl_case(arg):
+    """runs in a pool worker (which never builds an Eups itself); returns one observation per process"""
+    case, mres = arg
+    c06._eups()
+    root = common.scratch_dir()
+    saved = dict(os.environ)
+    obs = []
+    try:
+        setup_world(root)
+        for p, mst in zip(case["procs"], mres):
+            before = mtimes(dict(scan_records(root), **{"P:" + k: v for k, v in scan_pickles(root).items()}))
+            o = {"out": [], "loaded": {}, "ans": None, "died": None}
+            if "del" in p:
+                pp = pickle_path(root, *p["del"])
+                if os.path.exists(pp):
+                    os.remove(pp)
+                o["out"] = ["ok"]
+            else:
+                r = common.in_child(_admin_child if p.get("adm") else _proc_child, root, p, timeout=120)
+                if r[0] == "ok":
+                    o["out"] = r[1]["out"]
+                    o["loaded"] = r[1]["loaded"]
+                    if "ans" in r[1]:
+                        o["ans"] = r[1]["ans"]
+                elif r[0] == "died":
+                    o["died"] = r[1]
+                else:
+                    o["died"] = "exception %s: %s" % (r[1], r[2][:300])
+            recs, pks = scan_records(root), scan_pickles(root)
+            after = mtimes(dict(recs, **{"P:" + k: v for k, v in pks.items()}))
+            o["rec"] = sorted(k for k in after if not k.startswith("P:"))
+            o["pk"] = {}
+            for k, path in pks.items():
+                try:
+                    o["pk"][k] = read_pickle(root, path)
+                except Exception as ex:  # noqa
+                    o["pk"][k] = "unreadable: %s" % type(ex).__name__
+            o["touched"] = sorted(k for k in after if before.get(k) != after[k])
+            obs.append(o)
+            apply_stamps(root, mst)
+    finally:
+        shutil.rmtree(root, ignore_errors=True)
+        os.environ.clear()
+        os.environ.update(saved)
+    return obs
+
+
+def _worker_init():
+    c06._quiet()
+    c06._eups()
+
+
+_POOL = None
+
+
+def pool():
+    global _POOL
+    if _POOL is None:
+        n = min(16, os.cpu_count() or 4)
+        _POOL = multiprocessing.get_context("fork").Pool(n, initializer=_worker_init)
+    return _POOL
+
+
+def close_pool():
+    global _POOL
+    if _POOL is not None:
+        _POOL.close()
+        _POOL.join()
+        _POOL = None
+
+
+# ------------------------------------------------------------------ comparison and the property's own oracle
+
+def model_touched(prev, cur):
+    out = []
+    for k, t in cur["rec"].items():
+        if prev is None or prev["rec"].get(k) != t:
+            out.append(k)
+    for k, (t, _) in cur["pk"].items():
+        if prev is None or k not in prev["pk"] or prev["pk"][k][0] != t:
+            out.append("P:" + k)
+    return sorted(out)
+
+
+def first_diff(case, mres, obs):
+    """first process at which model and implementation differ: (index, field, model value, implementation value)"""
+    prev = None
+    for i, (p, m, o) in enumerate(zip(case["procs"], mres, obs)):
+        crashed_m = bool(m["out"]) and m["out"][-1] == "crashed"
+        if o["died"] is not None:
+            if not (crashed_m and o["died"] == CRASH_STATUS << 8):
+                return i, "death", m["out"], o["died"]
+        else:
+            if m["out"] != o["out"]:
+                return i, "outcomes", m["out"], o["out"]
+        if sorted(m["rec"]) != o["rec"]:
+            return i, "records", sorted(m["rec"]), o["rec"]
+        mp = {k: v[1] for k, v in m["pk"].items()}
+        if sorted(mp) != sorted(o["pk"]):
+            return i, "cache-files", sorted(mp), sorted(o["pk"])
+        for k in sorted(mp):
+            if mp[k] != o["pk"][k]:
+                return i, "cache-content " + k, mp[k], o["pk"][k]
+        mt = model_touched(prev, m)
+        if mt != o["touched"]:
+            return i, "touched", mt, o["touched"]
+        if o["died"] is None and "del" not in p:
+            if m["loaded"] != o["loaded"]:
+                return i, "loaded-flavors", m["loaded"], o["loaded"]
+        if p.get("q") and o["died"] is None:
+            ir = impl_rows(o["ans"])
+            ma = m["ans"] or []
+            if ma != ir:
+                a = [r for r in ma if r not in ir]
+                b = [r for r in ir if r not in ma]
+                return i, "answers", a[:6], b[:6]
+        prev = m
+    return None
+
+
+def oracle(case, obs):
+    """the property, on the implementation alone: every answer through the cache equals the answer from the files.
+    -> (process index, kind, answers from the files, answers through the cache) or None"""
+    for i, (p, o) in enumerate(zip(case["procs"], obs)):
+        if not o.get("ans"):
+            continue
+        for k in ("decl", "tag", "pdecl", "ptag", "list"):
+            c = sorted(r[1:] for r in o["ans"][k] if r[0] == "cache")
+            f = sorted(r[1:] for r in o["ans"][k] if r[0] == "files")
+            if c != f:
+                return i, "incoherent-" + k, [r for r in f if r not in c], [r for r in c if r not in f]
+    return None
+
+
+def evaluate(ctx, cases, v_rm=False, v_init=False):
+    mres = [parse_model(l) for l in ctx.model([case_line(c, v_rm, v_init) for c in cases])]
+    ires = pool().map(impl_case, list(zip(cases, mres)), chunksize=1)
+    return [(c, m, o, first_diff(c, m, o), oracle(c, o)) for c, m, o in zip(cases, mres, ires)]
+
+
+def ddmin_list(items, test):
+    items = list(items)
+    n = 2
+    while len(items) >= 2:
+        chunk = max(1, len(items) // n)
+        reduced = False
+        for start in range(0, len(items), chunk):
+            cand = items[:start] + items[start + chunk:]
+            if cand and test(cand):
+                items = cand
+                n = max(n - 1, 2)
+                reduced = True
+                break
+        if not reduced:
+            if chunk == 1:
+                break
+            n = min(n * 2, len(items))
+    return items
+
+
+def shrink(ctx, case, still_bad):
+    """fewer processes, then fewer operations in each"""
+    procs = ddmin_list(case["procs"], lambda ps: still_bad({"procs": ps}))
+    for i in range(len(procs)):
+        p = procs[i]
+        if "del" in p or len(p.get("ops", [])) < 2 or p.get("crash"):
+            continue
+
+        def test(ops, i=i, p=p):
+            return still_bad({"procs": procs[:i] + [dict(p, ops=ops)] + procs[i + 1:]})
+        procs[i] = dict(p, ops=ddmin_list(p["ops"], test))
+    return {"procs": procs}
+
+
+def shape(case):
+    np_ = len(case["procs"])
+    fl = sorted(set(p["f"] for p in case["procs"] if "f" in p))
+    us = sorted(set(p["u"] for p in case["procs"] if "u" in p))
+    cr = sum(1 for p in case["procs"] if p.get("crash"))
+    return "procs%02d-%02d/%s/users%d/crashes%d" % (np_ // 4 * 4, np_ // 4 * 4 + 3, "+".join(fl), len(us), min(cr, 3))
+
+
+def process(ctx, results, budget=[6]):
+    for c, m, o, dis, orc in results:
+        nops = sum(len(p.get("ops", [])) + 1 for p in c["procs"])
+        ctx.count(nops, key=shape(c), nontrivial=case_line(c) if any(st["rec"] for st in m) else None)
+        for p, ob in zip(c["procs"], o):
+            ctx.bump("proc/%s" % ("delete" if "del" in p else "admin-load" if p.get("adm") else
+                                  "crash-" + p["crash"]["when"] if p.get("crash") else
+                                  "reader" if not p["ops"] else "writer"))
+            for op, oc in zip(p.get("ops", []), ob["out"]):
+                ctx.bump("op/%s/%s" % (op["k"], oc.split(":")[0]))
+            if ob.get("died") is not None:
+                ctx.bump("died/%s" % ("injected" if ob["died"] == CRASH_STATUS << 8 else "other"))
+        if dis is None:
+            ctx.traces_validated += 1
+        else:
+            cc = c
+            if budget[0] > 0:
+                budget[0] -= 1
+                cc = shrink(ctx, c, lambda x: evaluate(ctx, [x])[0][3] is not None)
+            r = evaluate(ctx, [cc])[0]
+            d2 = r[3] or dis
+            ctx.disagree(cc, {"at": d2[0], "field": d2[1], "value": d2[2]}, {"at": d2[0], "field": d2[1], "value": d2[3]},
+                         where="process %d, %s" % (d2[0], d2[1]))
+        if orc is not None:
+            cc = c
+            kind = orc[1]
+            if budget[0] > 0:
+                budget[0] -= 1
+
+                def bad(x, kind=kind):
+                    r = evaluate(ctx, [x])[0][4]
+                    return r is not None and r[1] == kind
+                cc = shrink(ctx, c, bad)
+            r = evaluate(ctx, [cc])[0][4] or orc
+            cc = {"procs": cc["procs"][:r[0] + 1]}
+            ctx.fail(r[1], cc, expected=r[2], observed=r[3],
+                     what="process %d (a reader in a new process): the answers through the cache differ from the "
+                          "answers read from the database files; expected = rows only the files give, observed = "
+                          "rows only the cache gives" % r[0])
+
+
+def corpus_cases():
+    d = os.path.join(common.ROOT, "corpus", "C07")
+    out = []
+    if os.path.isdir(d):
+        for f in sorted(os.listdir(d)):
+            if f.endswith(".json"):
+                out.append(json.load(open(os.path.join(d, f)))["input"])
+    return out
+
+
+def configure(ctx):
+    ctx.rule = ("random histories of the C06 operations (declare / assignTag / unassignTag / undeclare / undeclare "
+                "--tag / remove over 3 products x 3 versions x tags current/stable/beta x 2 stacks) split into up to "
+                "16 processes of one or two users with separate EUPS_USERDATA directories; flavor sets Linux64 with "
+                "generic fall-back, generic only, Linux64+Darwin; every process is a forked child that builds its "
+                "first Eups (fromCache load of every stack), runs its operations and may be killed by an injected "
+                "os._exit right before or right after the k-th database call of one operation; cache files deleted "
+                "inside and between processes; administrator loads that persist into ups_db; reader processes ask "
+                "findProduct / findTaggedProduct per stack and over the path for every product x version x tag x "
+                "flavor of the fall-back list with noCache=False and noCache=True, and findProducts against "
+                "Database.findProducts; after every process the modification times are rewritten to the model's "
+                "logical stamps; one evaluation = one operation or one load; a case is non-trivial when some record "
+                "exists at some point; distinct = distinct encoded case")
+    ctx.trusted_base = common.COMMON_TRUSTED + [
+        "modelled, not verified: the decisions of the commands (Model/Db.v, tied to the code by C06) are taken on "
+        "the files' view; pickle byte format; python dict order; os.listdir order; Database.* performing exactly "
+        "the record effects of Model/Db.v (C06) atomically (C08)"]
+    ctx.assumptions = [
+        "clock_strict: every record effect and every cache-file write gets a modification time strictly later than "
+        "all earlier ones (the harness writes the model's logical stamps, one second apart, after every process); "
+        "with equal stamps the property is false (coherent_refuted_coarse_clock)",
+        "processes run one after the other (the commands hold the C09 locks); two live Eups instances of different "
+        "users that interleave their updates are outside the model",
+        "queries are asked for flavors of the instance's fall-back list (invoking flavor, generic)",
+        "global tags only; no user tags (the user tag directory holds no chain files); _EUPS_ASSUME_CACHES_UP_TO_DATE unset",
+        "a process dies only between two groups or between the database call of a group and its cache update "
+        "(death inside the database call is C08)"]
+    ctx.matchers = {}
+
+
+def run(ctx):
+    configure(ctx)
+    ctx.check_theorems()
+    try:
+        process(ctx, evaluate(ctx, corpus_cases()))
+        ncases = ctx.size(260, 3000)
+        cases = [gen_case(ctx.rng, max_procs=ctx.rng.choice([6, 10, 16, 16])) for _ in range(ncases)]
+        for c in cases[:2]:
+            ctx.sample(c)
+        for k in range(0, len(cases), 200):
+            process(ctx, evaluate(ctx, cases[k:k + 200]))
+    finally:
+        close_pool()
+
+
+def replay(ctx, path):
+    configure(ctx)
+    obj = json.load(open(path))
+    c = obj["input"] if "input" in obj else obj["first_disagreement"]["case"]
+    try:
+        process(ctx, evaluate(ctx, [c]), budget=[0])
+    finally:
+        close_pool()
+    bad = [f for f in ctx.failures if not ctx._known(f)] or ctx.disagreements
+    for f in ctx.failures:
+        print("oracle: %s: %s\n  only in the files: %s\n  only in the cache: %s" % (f["kind"], f["what"], f["expected"], f["observed"]))
+    for d in ctx.disagreements:
+        print("model/implementation differ at %s: model %s, implementation %s" % (d["where"], d["model"], d["impl"]))
+    print("replay %s: %s" % (path, "still fails" if bad else "passes"))
+    return 1 if bad else 0
